@@ -301,10 +301,18 @@ func c14Compare(kc *kcl.KeyCredential, f c14Fields, e c14Enc, fail func(site, as
 func c14ParseBack(f c14Fields, e c14Enc, fail func(site, aspect, detail string)) {
 	kc := &kcl.KeyCredential{}
 	var perr error
-	if p := h.Guard(func() { perr = kc.FromBytes(append([]byte{}, e.Blob...)) }); p != "" {
+	input := append([]byte{}, e.Blob...)
+	if p := h.Guard(func() { perr = kc.FromBytes(input) }); p != "" {
 		fail(c14KC+".FromBytes", "panic-on-own-blob", p)
 		return
 	}
+	defer func() {
+		// parsing and then serialising the parsed object never writes into the caller's blob
+		h.Guard(func() { kc.ToBytes() })
+		if !bytes.Equal(input, e.Blob) {
+			fail(c14KC+".ToBytes", "overwrites-parsed-input", "FromBytes(blob) followed by ToBytes() changed the caller's blob at "+c14FirstDiff(e.Blob, input))
+		}
+	}()
 	if perr != nil {
 		fail(c14KC+".FromBytes", "error-on-own-blob", perr.Error())
 		return
@@ -472,6 +480,35 @@ func c14Cred(c *h.Ctx, k c14Case, own map[string]int, kept *[]c14Kept) {
 	}
 	if again, err2 := kc.ToBytes(); err2 != nil || !bytes.Equal(again, blob) {
 		P(c14KC+".ToBytes", "not-repeatable", "a second ToBytes() on the same object returns different bytes")
+	}
+	// the blob handed out belongs to the caller: scribbling over one does not reach the object (its cached RawBytes, its hash)
+	if b4, e4 := kc.ToBytes(); e4 == nil && len(b4) == len(blob) {
+		for i := range b4 {
+			b4[i] ^= 0xFF
+		}
+		okAfter := false
+		var b5 []byte
+		if p := h.Guard(func() { okAfter = kc.CheckIntegrity(); b5, _ = kc.ToBytes() }); p != "" || !okAfter || !bytes.Equal(b5, blob) {
+			P(c14KC+".ToBytes", "returned-blob-aliases-object", fmt.Sprintf("after the caller overwrote a blob ToBytes() had returned, CheckIntegrity() = %v and ToBytes() departs at %s %s", okAfter, c14FirstDiff(blob, b5), p))
+		}
+		c.Exec(2)
+	}
+	// a serialisation that FAILS (identifier that cannot be converted) leaves nothing behind: with the identifier restored
+	// the same object serialises to the same blob
+	{
+		id := kc.Identifier
+		kc.Identifier = "!!not-an-identifier!!"
+		var e1 error
+		h.Guard(func() { _, e1 = kc.ToBytes() })
+		kc.Identifier = id
+		if e1 != nil {
+			var b3 []byte
+			var e3 error
+			if p := h.Guard(func() { b3, e3 = kc.ToBytes() }); p != "" || e3 != nil || !bytes.Equal(b3, blob) {
+				P(c14KC+".ToBytes", "after-failed-call", fmt.Sprintf("after a rejected ToBytes() the same object (identifier restored) serialises to %d bytes departing at %s (%v %s)", len(b3), c14FirstDiff(blob, b3), e3, p))
+			}
+		}
+		c.Exec(2)
 	}
 	c.Exec(3)
 	// 4. parse back: own encoding is P, every other admitted encoding is D (blobs this library would not have written)
@@ -824,6 +861,7 @@ func c14Hist(c *h.Ctx) error {
 						panic("ToBytes error: " + err.Error())
 					}
 					gotBytes = b
+					c.Retain(c14KC+".ToBytes", b, map[string]interface{}{"history": names}) // blobs handed out earlier in this and in other histories stay what they were
 				case "hash":
 					gotBytes = kc.ComputeKeyHash()
 				case "check":
